@@ -31,7 +31,9 @@ RULE = ("simulated histories: 1-3 services (with/without subtype, IPv4/IPv6/both
         "timer-exact runs, runs with extra early iterations, runs woken exactly at the requested time, late runs; queries of "
         "every type at random phases; conflicting responses and competing probes at every probe step; unregister at every "
         "phase; addr_auto services with disable_interface / enable_interface (by name, All, IPv4, IPv6) at every "
-        "phase of probing and after the announcements, gaps 0-3000 ms. A history is non-trivial when the daemon sent at least one packet; distinct = distinct history lines")
+        "phase of probing and after the announcements, gaps 0-3000 ms. Model-free family (60): 1-3 services whose instance "
+        "names contain non-ASCII upper-case letters (lower-case non-ASCII and ASCII names as control), fixed or auto "
+        "addresses, interface check off, timer-exact run, then a question per instance. A history is non-trivial when the daemon sent at least one packet; distinct = distinct history lines")
 TRUSTED = [
     "Coq 8.16.1 kernel (coqc); vm_compute only in Examples and witness lemmas",
     "axioms: none (Print Assumptions: Closed under the global context for every theorem)",
@@ -50,7 +52,11 @@ TRUSTED = [
     "enumeration (replaced by the hooks; the OS table is an input), packet splitting above 8972 bytes, the record cache (no browse/resolve calls "
     "in these histories), non-ASCII case mapping",
 ]
-PARTIAL = ("Proved for all histories of the daemon model without response datagrams and interface toggles: probe spacing on "
+PARTIAL = ("Names with non-ASCII cased letters are outside the model (Base/Bytes.v folds ASCII letters only, the daemon keys its "
+           "service map with the Unicode to_lowercase): they are covered by a model-free family judged on the trace in exactly "
+           "the registered spelling (liveness only: three probes 250 ms apart, two announcements one second apart within 1 s of "
+           "the registration, questions answered), not by the correspondence. "
+           "Proved for all histories of the daemon model without response datagrams and interface toggles: probe spacing on "
            "the wire. Proved for all operation sequences of the registry machine and for single daemon steps: the other "
            "clauses (see Props/C07.v). NOT proved as a theorem over histories: that chk_C07 accepts every run of the daemon "
            "model (three probes and the wait before every response, second announcement, wake-up requests); this is "
@@ -67,10 +73,14 @@ KNOWN = {42: "C07-late-wakeup-fewer-probes", 44: "C07-record-joins-inflight-prob
 
 
 def project(case_line, raw):
+    if reglib.is_na(case_line):
+        return reglib.project_na(case_line, raw)
     return reglib.project(case_line, raw)
 
 
 def model_input(case_line, raw):
+    if reglib.is_na(case_line):
+        return "na"
     return reglib.model_input(ID, case_line, raw)
 
 
@@ -90,6 +100,9 @@ def generate(rng, tier):
     add(reglib.gen_two_daemon_history, 50 * k, "two")
     add(reglib.gen_iface_toggle_history, 260 * k, "toggle")
     add(reglib.gen_prefix_tiebreak_history, 40 * k, "prefix")
+    # model-free: names with non-ASCII cased letters, judged on the trace (reglib.project_na)
+    for i in range(60 * k):
+        cases.append(Case(reglib.jdump(reglib.gen_nonascii_history(rng, "na-%d" % i)), "nonascii"))
     # every start jitter the seeds of the table give (first draw of 64 seeds), timer-exact, one service
     for seed in sorted(reglib.FIRST_JITTER)[: (64 if tier != "quick" else 24)]:
         h = {"id": "jit%d" % seed, "t0": reglib.T0, "daemons": [{"seed": seed, "ifaces": reglib.IFCFGS["dual"]}],
@@ -104,7 +117,7 @@ def generate(rng, tier):
 
 
 def nontrivial(line, result):
-    return reglib.has_sends(result)
+    return reglib.has_sends(result) or result == "NA ok"
 
 
 def known_class(line, impl_result, monitor_result):
@@ -112,6 +125,8 @@ def known_class(line, impl_result, monitor_result):
 
 
 def shrink(line, still_bad):
+    if reglib.is_na(line):
+        return line
     return vlib.shrink_history(line, still_bad)
 
 
